@@ -10,6 +10,11 @@ EXTRA = [  # calls whose internal decisions iterate sets (anchors of C16): ties 
     ("set_at", "[n], i j, j i -> [n]", [np.zeros(3), np.array([[0, 0], [0, 1]]), np.array([[1.0, 2.0], [3.0, 4.0]])], {}),
     ("set_at", "[x], a b, b a -> [x]", [np.zeros(4), np.array([[0, 1], [1, 2]]), np.array([[100.0, 101.0], [200.0, 201.0]])], {}),
     ("set_at", "[x], a b c, c a b, b c a -> [x]", [np.zeros(3), np.zeros((2, 2, 2), dtype=int), np.zeros((2, 2, 2), dtype=int), np.arange(8.0).reshape(2, 2, 2)], {}),
+    # ties between composed axes: '(i k)' and '(j l)' are renamed cse.<idx> internally, <idx> follows set iteration order in stage2/cse.py - the winner
+    # among duplicate targets must not follow it
+    ("set_at", "[n], (i k) (j l), (j l) (i k) -> [n]", [np.zeros(7, dtype="int64"), np.array([[0, 2, 1, 0], [2, 2, 0, 1], [1, 0, 0, 2], [2, 1, 1, 0]]), np.arange(1, 17).reshape(4, 4)], {"i": 2, "j": 2}),
+    ("set_at", "[n], (i k) (j l) (p q), (p q) (j l) (i k) -> [n]", [np.zeros(3, dtype="int64"), np.arange(64).reshape(4, 4, 4) % 3, np.arange(1, 65).reshape(4, 4, 4)], {"i": 2, "j": 2, "p": 2}),
+    ("add_at", "[n], (i k) (j l), (j l) (i k) -> [n]", [np.zeros(7), np.array([[0, 2, 1, 0], [2, 2, 0, 1], [1, 0, 0, 2], [2, 1, 1, 0]]), np.arange(1.0, 17.0).reshape(4, 4)], {"i": 2, "j": 2}),
     ("add", "a b, b a", [np.ones((2, 3)), np.ones((3, 2))], {}),
     ("add", "a b, b a", [np.ones((3, 3)), np.arange(9.0).reshape(3, 3)], {}),
     ("add", "a b, (a b)", [np.ones((2, 3)), np.ones(6)], {}),
